@@ -274,18 +274,25 @@ def main(argv=None):
     with common.Pool() as pool:
         cases = [{"seed": a.seed * 100 + i, "ops": ops, "core": True} for i, ops in enumerate(CORE)]
         cases.append({"seed": a.seed * 100 + 99, "ops": [["USER", "anonymous"], ["PASV", ""], ["PWD", ""], ["EPSV", ""], ["RETR", "f", {"connect": "before"}]], "core": True, "ipv6": True})
-        for i in range(n):
-            s = a.seed * 1_000_000 + i
-            rnd = random.Random(s * 3 + 1)
-            cases.append({"seed": s, "ops": gen_history(rnd), "fs_delay": rnd.choice([None, None, [0.0001, 0.001]]), "ipv6": rnd.random() < 0.15})
-        for c in cases[:2] + cases[len(CORE) : len(CORE) + 1]:
-            c["want_sample"] = True
+        core_n = len(cases)
+
+        def gen(core=cases):
+            yield from core
+            for i in range(n):
+                s = a.seed * 1_000_000 + i
+                rnd = random.Random(s * 3 + 1)
+                c = {"seed": s, "ops": gen_history(rnd), "fs_delay": rnd.choice([None, None, [0.0001, 0.001]]), "ipv6": rnd.random() < 0.15}
+                if i == 0:
+                    c["want_sample"] = True
+                yield c
+
+        cases = common.with_samples(gen(), 2)
         for case, res in pool.map(run_case, cases, deadline=deadline, chunksize=8):
             ev.add_run(res)
             for v in res["violations"]:
                 rep.add(case, v)
         ev.extra["core_histories"] = len(CORE)
-        ev.extra["planned"] = len(cases)
+        ev.extra["planned"] = core_n + n
         ev.assumptions = [
             "the reference model (simftp/model.py) is the specification; it is deliberately relational where the statement is (e.g. 'some 4xx/5xx' when the backend refuses)",
             "MemoryPathIO only; the other shipped backends are compared in C18",
